@@ -933,7 +933,7 @@ impl Interp {
                             *base_asset_holding_cap = Some(u(cap_tab(b, my)))
                         }
                         _ => {
-                            let t: [u64; 11] = [3600, 60, 59, 604800, 604801, 900, 0, 86400, 300, 120, 600];
+                            let t: [u64; 14] = [3600, 60, 59, 604800, 604801, 900, 0, 86400, 300, 120, 600, 4_294_970_896, u64::MAX, 1 << 40];
                             *spot_price_twap_interval = Some(t[idx(*knob, t.len())])
                         }
                     }
